@@ -115,7 +115,7 @@ def run(ctx, rep):
     rep.stats["instances_reachable"] = len(parent)
     rep.stats["instances_local"] = sum(1 for i in parent if F.inst(i)["local"])
     rep.stats["entry_points"] = PUBLIC_ENTRIES
-    rep.floor("S0", "reachable-instances", len(parent), 1500)
+    rep.floor("S0", "reachable-instances", len(parent), 800)
     unresolved = [(F.inst(i)["name"], c) for i in parent for _, c in F.inst(i).get("calls", [])
                   if isinstance(c, str) and c.startswith("unresolved")]
     rep.add("S0", "all-callees-resolved", not unresolved, "", "unresolved callees: %r" % unresolved[:5])
@@ -277,7 +277,7 @@ def run(ctx, rep):
                     rep.add("S3", "ptr2int:%s" % I["def"], False, "%s:%s" % (body.file, s.get("line")),
                             "pointer converted to integer (%s %s -> %s)" % (ck, r["from"], r["ty"]))
     rep.add("S3", "ptr2int-scan", True, "", "%d crate-local bodies scanned for pointer->integer casts" % nloc)
-    rep.floor("S3", "local-bodies-scanned", nloc, 200)
+    rep.floor("S3", "local-bodies-scanned", nloc, 100)
 
     # ---- S4 unsafe confined ----------------------------------------------------------------------
     nunsafe = 0
